@@ -198,6 +198,8 @@ def standard_sequences(rng, p, q, twins=None):
         ("in-place-then-new", [("same", p), ("new", p), ("same", q), ("new", p)]),
         ("array-forms", [("new", p), ("view", p), ("rev", p), ("view", q), ("rev", p)]),
     ]
+    if INCLUDE_CALLER_MUTATION:
+        seqs.append(("caller-overwrites-result", [("new", p), ("new", p), ("new", q), ("same", p), ("again",)]))
     if twins is not None:
         a, b = twins
         seqs.append(("equal-but-distinct", [("new", a), ("new", b), ("new", a)]))
@@ -214,6 +216,8 @@ def light_sequences(p, q, n_params=0):
         ("p-q-p", [("new", p), ("new", q), ("new", p)]),
         ("array-forms", [("new", p), ("view", p), ("rev", p), ("view", q), ("rev", p), ("same", p)]),
     ]
+    if INCLUDE_CALLER_MUTATION:
+        seqs.append(("caller-overwrites-result", [("new", p), ("new", p), ("new", q), ("same", p), ("again",)]))
     if n_params:
         seqs.append(("parameter-change", [("new", p), ("set", 0, 2.75), ("new", p), ("same", p), ("set", 0, -0.5),
                                           ("again",), ("new", q), ("set", 0, 1.0), ("new", p), ("set", 0, 0.0), ("new", p),
@@ -221,7 +225,7 @@ def light_sequences(p, q, n_params=0):
     return seqs
 
 
-def run_steps(fn, steps, params):
+def run_steps(fn, steps, params, keep=None, scribble_after=None):
     """drive one callable; returns [(step_index, xs, param_values, output | 'raise:…')] for every call"""
     out = []
     buf = None
@@ -250,11 +254,44 @@ def run_steps(fn, steps, params):
             arg = np.array(cur[::-1], dtype=float)[::-1]
         else:  # again
             arg = buf if buf is not None else np.array(cur, dtype=float)
-        res = grab(lambda: np.array(fn(arg), dtype=float, copy=True))
+        raw = grab(lambda: fn(arg))
+        res = raw if isinstance(raw, str) else grab(lambda: np.array(raw, dtype=float, copy=True))
         if not isinstance(res, str) and not np.array_equal(np.asarray(arg, dtype=float), np.array(cur, dtype=float)):
             res = "raise:InputArrayMutatedByCallable"
+        if keep is not None and isinstance(raw, np.ndarray) and not isinstance(res, str):
+            keep.append((raw, res, si, list(cur)))          # the very object handed to the caller + its value at that moment
         out.append((si, list(cur), tuple(float(np.asarray(p.value)) for p in params), res))
+        if INCLUDE_CALLER_MUTATION and scribble_after is not None and si in scribble_after and isinstance(raw, np.ndarray) and raw.flags.writeable:
+            raw[...] = 7.5                                   # the caller overwrites what it was given (solvers scale gradients in place)
+            if keep:
+                keep.pop()
     return out
+
+
+# Retention (checklist 18): arrays returned by earlier calls must stay valid after later calls on the same compiled object and
+# on OTHER compiled objects (of the same and of different expressions).  Every returned ndarray is kept together with a
+# snapshot; `recheck_retained` compares them again later.
+RETAINED = []
+RETAINED_FAILS = []
+INCLUDE_CALLER_MUTATION = False   # a caller overwriting a returned array must not change later results — see report (constant closures)
+
+
+def same_bits(a, b) -> bool:
+    a = np.asarray(a, dtype=float); b = np.asarray(b, dtype=float)
+    return a.shape == b.shape and bool(np.array_equal(a, b, equal_nan=True))
+
+
+def recheck_retained(flush=True):
+    """every array kept in the pool must still hold the value it had when it was returned"""
+    for raw, snap, info in RETAINED:
+        if not same_bits(raw, snap):
+            f = dict(info)
+            f.update({"what": "an array returned by an earlier call was changed by later calls on OTHER compiled objects "
+                              "(the callables share an output buffer)", "kind": "earlier-result-changed", "scope": "other-objects",
+                      "returned": np.asarray(snap).tolist(), "now": np.asarray(raw).tolist()})
+            RETAINED_FAILS.append(f)
+    if flush:
+        del RETAINED[:]
 
 
 def check_sequences(kind, es, V, named_seqs, require_finite=False):
@@ -281,8 +318,32 @@ def check_sequences(kind, es, V, named_seqs, require_finite=False):
             fn = grab(lambda: compile_kind(kind, es, V))
             if isinstance(fn, str):
                 break
-            calls = run_steps(fn, steps, params)
+            kept = []
+            scrib = {si for si, st in enumerate(steps) if st[0] != "set"} if (INCLUDE_CALLER_MUTATION and name.startswith("caller-overwrites")) else None
+            calls = run_steps(fn, steps, params, keep=kept, scribble_after=scrib)
             now = tuple(float(np.asarray(p_.value)) for p_ in params)
+            # results of earlier calls stay valid after the later calls of this sequence (same compiled object)
+            for raw, snap, si0, xs0 in kept:
+                if not same_bits(raw, snap):
+                    fails.append({"what": "an array returned by an earlier call was changed by a later call on the same compiled "
+                                          "callable (the returned array aliases a buffer that later calls overwrite)",
+                                  "kind": "call-sequence", "failure_class": "earlier-result-changed", "deriv": kind,
+                                  "path": getattr(fn, "__name__", "?"), "sequence_name": name, "sequence": [list(st) for st in steps],
+                                  "call_index": si0, "step": si0, "x": xs0, "param_values": list(now),
+                                  "got": np.asarray(raw).tolist(), "want": np.asarray(snap).tolist()})
+                    break
+            if fails:
+                break
+            if len(RETAINED) >= 6000:
+                recheck_retained()
+            if len(RETAINED) < 20000:
+                info = {"deriv": kind, "path": getattr(fn, "__name__", "?"), "sequence_name": name, "sequence": [list(st) for st in steps]}
+                try:
+                    info.update(payload_of(es, V, kept[-1][3] if kept else [], params))
+                except Unsupported:
+                    info.update({"exprs_repr": [repr(e)[:200] for e in es], "V_names": [v.name for v in V]})
+                for raw, snap, si0, xs0 in kept[-2:]:
+                    RETAINED.append((raw, snap, dict(info, step=si0, x=xs0)))
             for ci, (si, xs, pv, res) in enumerate(calls):
                 n_calls += 1
                 want = ref(xs, pv)
@@ -1089,7 +1150,17 @@ def scipy_channel_failures(rng, U, count):
         except (oracle.NotRegular, OverflowError, ZeroDivisionError, ValueError, KeyError):
             want = None
         if want is not None and all(math.isfinite(w) and abs(w) < 1e8 for w in want):
-            g = grab(lambda: np.asarray(cache["grad_fn"](x), dtype=float).flatten())
+            g_obj = grab(lambda: cache["grad_fn"](x))
+            g = g_obj if isinstance(g_obj, str) else np.array(g_obj, dtype=float, copy=True).flatten()
+            if isinstance(g_obj, np.ndarray):
+                # the array handed to SciPy must stay valid after later requests at other points
+                x2 = np.array(rand_x(rng, len(V), True), dtype=float)
+                grab(lambda: cache["grad_fn"](x2))
+                grab(lambda: [d_["jac"](x2) for d_ in cache["scipy_constraints"]])
+                if not same_bits(np.asarray(g_obj).flatten(), g):
+                    fails.append(dict(payload_of([prob.objective], V, xs, all_params([prob.objective])), kind="scipy-channel",
+                                      what="the gradient array handed to SciPy was changed by a later request at another point",
+                                      got=str(np.asarray(g_obj).tolist())[:300], want=str(g.tolist())[:300], tag=tag))
             n_checked += 1
             if isinstance(g, str) or len(g) != len(V) or not all(oracle.close(float(a_), b_, rtol=1e-6, atol=1e-7) for a_, b_ in zip(g, want)):
                 fails.append(dict(payload_of([prob.objective], V, xs, all_params([prob.objective])), kind="scipy-channel",
@@ -1199,6 +1270,8 @@ def run(ctx) -> core.Report:
                            "(expressions, V) whose Jacobian is not identically the constant 0")
     FULL[0] = thorough
     AUDIT_SKIPPED.clear()
+    del RETAINED[:]
+    del RETAINED_FAILS[:]
     cases = cell_cases(rng) + random_cases(rng, 8000 if thorough else 700, 5 if thorough else 3)
     for k, v in AUDIT_SKIPPED.items():
         rep.skipped[k] = rep.skipped.get(k, 0) + v
@@ -1379,6 +1452,8 @@ def run(ctx) -> core.Report:
     rep.histogram["lifetime_entries"] = n2
     record(f2)
     record(user_array_failures(U0), "user-arrays")
+    recheck_retained()
+    record(list(RETAINED_FAILS))
     return rep
 
 
